@@ -2,10 +2,12 @@
    driver; instantiated by the driver at zp_ops P64.  Directives: ExtrOcamlBasic only (Z / N / nat stay inductive). *)
 From Coq Require Extraction ExtrOcamlBasic.
 From VBase Require Import FieldOps ZpOps.
-From VModel Require Import Composition.
+From VModel Require Import Composition CompositionLagrange.
+From VModel Require Enforce EnforceLagrange.
 Extraction Language OCaml.
 Separate Extraction
   zp_ops P64 zpow_mod
   evaluate composition_poly_new interpolate_with_offset cp_evaluate_at recombine
   bg_evaluate_at combine_evaluations div_from_transition
-  fam_tmain fam_taux.
+  fam_tmain fam_taux
+  lagrange_evaluate EnforceLagrange.mkLTC Enforce.mkD.
